@@ -834,13 +834,18 @@ with SqlImpl.impl_store.impl_manager as impl:
 
     @impl(ops.shift)
     def _shift(x, by, empty_value=None):
+        # `empty_value` is a constant parameter: it arrives as a plain python value
+        # (or as a compiled NULL literal)
+        has_fill = empty_value is not None and not (
+            isinstance(empty_value, sqa.ColumnElement) and isinstance(empty_value.type, sqa.types.NullType)
+        )
         if by >= 0:
-            if empty_value is not None and not isinstance(empty_value.type, sqa.types.NullType):
+            if has_fill:
                 return sqa.func.LAG(x, by, empty_value, type_=x.type)
             else:
                 return sqa.func.LAG(x, by, type_=x.type)
         if by < 0:
-            if empty_value is not None and not isinstance(empty_value.type, sqa.types.NullType):
+            if has_fill:
                 return sqa.func.LEAD(x, -by, empty_value, type_=x.type)
             else:
                 return sqa.func.LEAD(x, -by, type_=x.type)
